@@ -23,10 +23,16 @@ import (
 	"verif/symgo/interp"
 )
 
-const (
-	verifDir = "/verif"
-	modPath  = "github.com/ichiban/prolog"
-)
+const modPath = "github.com/ichiban/prolog"
+
+// verifDir is /verif; SYMGO_VERIF names a snapshot of it (harness/, known_findings.json) for background sweeps that must
+// not see half-edited harness files. The registered commands never set it.
+var verifDir = func() string {
+	if v := os.Getenv("SYMGO_VERIF"); v != "" {
+		return v
+	}
+	return "/verif"
+}()
 
 // repoDir is /repo. For testing the checks against a seeded change without touching /repo, SYMGO_REPO names a scratch
 // copy of the repository; evidence and replay files then go to SYMGO_OUT (required) instead of /verif. The registered
